@@ -8,6 +8,7 @@ class stream_satoshi_int:
     props = ["C07", "C16"]
     sig = dict(f=WFile(), v=Int())
     assigns = ["f"]
+    options = {'reveal': ['compact_size']}
 
     def requires(f, v):
         return 0 <= v and v < 2 ** 64
@@ -36,7 +37,7 @@ class parse_satoshi_int:
     canaries = [("v == 254", "v == 255"), ("f.read(2)", "f.read(4)")]
 
 
-@lemma(sig=dict(v=Int(0, 2 ** 64 - 1), pre=Bytes(), rest=Bytes()))
+@lemma(sig=dict(v=Int(0, 2 ** 64 - 1), pre=Bytes(), rest=Bytes()), options={'reveal': ['compact_size']}, props=["C07", "C16"])
 def cs_roundtrip(v, pre, rest):
     """decoding the canonical encoding of v (anywhere in a buffer) gives v and consumes exactly it"""
     d = pre + compact_size(v) + rest
@@ -49,6 +50,7 @@ class stream_satoshi_string:
     props = ["C07", "C16"]
     sig = dict(f=WFile(), v=Bytes())
     assigns = ["f"]
+    options = {'reveal': ['varstr']}
 
     def requires(f, v):
         return len(v) < 2 ** 64
